@@ -1,4 +1,5 @@
 import CnlProofs.RoundCvt
+import CnlProofs.RoundWrap
 /-!
 # C09 — narrowing conversions under a rounding mode are correctly rounded
 
@@ -57,6 +58,24 @@ to its division-free characterisation (`roundShift_isRounded`).
   resolution), `C09.ties_up_float_to_scaled_truncates_after_bias` (`x + half ≥ 0` or a multiple) and
   `C09.float_to_scaled_bias_rounds` (the biased sum is exact); the classes themselves are refuted in
   `neg_inf_float_to_scaled_refuted`, `ties_up_float_to_scaled_refuted`, `float_to_scaled_bias_refuted`.
+
+## scaled → scaled with the rounding tag in the representation (last section)
+
+`scaled_integer<rounding_integer<Rep, Tag>, power<E>>`, model `CnlModel.RoundWrap`: narrowing is the
+*tagged division* of C08 by `2^k` in the promoted representation type (`rounding_integer.h`,
+`num_traits/scale.h`), not the bias-and-shift of `rounding/convert_operator.h`.
+
+* `wrapped_narrowing_correct` — `eS < eD`: for **every** source value and every tag the result is
+  the correctly rounded `roundShift (modeOf mode) v k` (the same spec function as above), reduced into
+  the destination representation; no bias can overflow, no representability hypothesis in the common
+  type is needed (`wrapped_quotient_fits`).  Only hypothesis: `2^k` is representable in the promoted
+  representation type (`k < (promote S).digits`), which is necessary:
+  `wrapped_narrowing_power_refuted` (`1 << 31` is `INT_MIN`; the instantiation compiles).
+* `wrapped_narrowing_representable`, `wrapped_narrowing_isRounded`, `wrapped_narrowing_roundDiv` —
+  the value itself when it fits the destination; the division-free characterisation; the C08 form.
+* `wrapped_widening_exact`, `wrapped_widening_ub_iff`, `wrapped_widening_unsigned_wraps` —
+  `eD ≤ eS`: exactly `v · 2^(eS − eD)` under every tag whenever that fits the promoted source type;
+  undefined behaviour exactly when the promoted type is signed and the product does not fit.
 -/
 namespace Cnl.C09
 open Cnl Cnl.Spec Cnl.Rounding Cnl.RoundCvt Cnl.RoundCvtP
@@ -459,5 +478,140 @@ example : ¬ TruncIsFloor (sval true (2^24-1)) (-26 - -4)
 example : ScaleFits binary32 20 (2^24-1) (-149) ∧ PowF binary32 20 ∧ ¬ ScaleOk binary32 20 (2^24-1) (-149)
     ∧ floatToScaled .nat binary32 i32 20 (.fin true (2^24-1) (-149)) = .ok 0
     ∧ roundDyadic .truncate (sval true (2^24-1)) (-149 - 20) = 0 := by decide +kernel
+
+/-! ## scaled → scaled through `rounding_integer` representations (`CnlModel.RoundWrap`)
+
+`RoundWrap.convert mode S eS D eD v` converts
+`scaled_integer<rounding_integer<S, Tag>, power<eS>>` holding `v` to
+`scaled_integer<rounding_integer<D, Tag>, power<eD>>`; the result is the destination's innermost
+representation (type and value). -/
+
+/-- in every mode `v / 2^k` rounded lies between `0` and `v`; hence it is a value of every integer
+type that holds `v` — in particular of the common type in which the tagged division runs -/
+theorem wrapped_quotient_fits (T : IntTy) (m : RoundMode) (v : Int) (k : Nat) (hv : T.InRange v) :
+    (min v 0 ≤ roundShift m v k ∧ roundShift m v k ≤ max v 0) ∧ T.InRange (roundShift m v k) :=
+  ⟨RoundWrap.roundShift_between m v k, RoundWrap.roundShift_inRange m k hv⟩
+
+/-- narrowing (`eS < eD`, `k = eD − eS`): for every representation type (all widths, signed and
+unsigned), every rounding tag and **every** source value `v`, the conversion executes no undefined
+behaviour and returns `v / 2^k` rounded as the tag prescribes, converted to the destination
+representation type.  The hypothesis `k < (promote S).digits` says that the divisor
+`power_value<rounding_integer<S, Tag>, k, 2>() = decltype(s >> …){1} << constant<k>`, whose
+representation type is the (doubly, idempotently) promoted `S`, holds `2^k`; it is what the
+`static_assert` of `power_value` enforces for built-in operands (for a `rounding_integer` operand the
+assertion is vacuous — see `wrapped_narrowing_power_refuted`).  Unsigned sources need nothing more: the
+usual arithmetic conversions of `S` against `promote S` yield `promote S`, which holds `v` and `2^k`. -/
+theorem wrapped_narrowing_correct (mode : RdMode) (S D : IntTy) (hS : 1 ≤ S.bits) (eS eD : Int) (v : Int)
+    (h : eS < eD) (hk : (eD - eS).toNat < (promote S).digits) (hv : S.InRange v) :
+    RoundWrap.convert mode S eS D eD v
+      = .ok (Cnl.convert D (promote S, roundShift (modeOf mode) v (eD - eS).toNat)) :=
+  RoundWrap.narrowing_eval mode S D hS eS eD v h hk hv
+
+/-- … the rounded value itself whenever it is representable in the destination -/
+theorem wrapped_narrowing_representable (mode : RdMode) (S D : IntTy) (hS : 1 ≤ S.bits) (hD : 1 ≤ D.bits)
+    (eS eD : Int) (v : Int) (h : eS < eD) (hk : (eD - eS).toNat < (promote S).digits) (hv : S.InRange v)
+    (hfit : D.InRange (roundShift (modeOf mode) v (eD - eS).toNat)) :
+    RoundWrap.convert mode S eS D eD v = .ok (D, roundShift (modeOf mode) v (eD - eS).toNat) := by
+  rw [wrapped_narrowing_correct mode S D hS eS eD v h hk hv]
+  simp only [Cnl.convert, IntTy.wrap_id hD hfit]
+
+/-- … which is the multiple of the destination resolution the mode selects from the exact source
+value: it satisfies the division-free characterisation shared with C08 (which has one solution) -/
+theorem wrapped_narrowing_isRounded (mode : RdMode) (S D : IntTy) (hS : 1 ≤ S.bits) (hD : 1 ≤ D.bits)
+    (eS eD : Int) (v : Int) (h : eS < eD) (hk : (eD - eS).toNat < (promote S).digits) (hv : S.InRange v)
+    (hfit : D.InRange (roundShift (modeOf mode) v (eD - eS).toNat)) :
+    ∃ w, RoundWrap.convert mode S eS D eD v = .ok (D, w) ∧ IsRounded (modeOf mode) v (2^(eD - eS).toNat) w :=
+  ⟨_, wrapped_narrowing_representable mode S D hS hD eS eD v h hk hv hfit, Spec.roundShift_isRounded _ v _⟩
+
+/-- … in the vocabulary of C08: the rounded quotient `roundDiv (modeOf mode) v (2^k)` -/
+theorem wrapped_narrowing_roundDiv (mode : RdMode) (S D : IntTy) (hS : 1 ≤ S.bits) (hD : 1 ≤ D.bits)
+    (eS eD : Int) (v : Int) (h : eS < eD) (hk : (eD - eS).toNat < (promote S).digits) (hv : S.InRange v)
+    (hfit : D.InRange (roundDiv (modeOf mode) v (2^(eD - eS).toNat))) :
+    RoundWrap.convert mode S eS D eD v = .ok (D, roundDiv (modeOf mode) v (2^(eD - eS).toNat)) := by
+  rw [← Spec.roundShift_eq_roundDiv] at hfit ⊢
+  exact wrapped_narrowing_representable mode S D hS hD eS eD v h hk hv hfit
+
+/-- the hypothesis on `k` is necessary, and the excluded instantiation compiles: with `k = 31` on
+`int` the divisor `1 << 31` is `INT_MIN`, and `(2^31 − 1)·2^-31 ≈ 1` converts to `-1`
+(`scaled_integer<rounding_integer<int, nearest>, power<-31>>` → `power<0>`; the real code returns the
+same).  Class `C09.wrapped_power_is_int_min` (reported; outside the correspondence grid). -/
+theorem wrapped_narrowing_power_refuted :
+    RoundWrap.convert .nrst i32 (-31) i32 0 2147483647 = .ok (i32, -1)
+      ∧ roundShift .nearestAway 2147483647 31 = 1 ∧ i32.InRange 1 ∧ i32.InRange 2147483647
+      ∧ ¬ (31 < (promote i32).digits)
+      ∧ cBin .shl (promote (promote i32), 1) (i32, 31) = .ok (i32, -2147483648) := by decide +kernel
+
+-- the input a seeded defect got wrong: 0xFFFFFFF8 / 16 = 268435455.5, ties toward +∞ in `unsigned`
+example : RoundWrap.convert .tpi u32 (-4) u32 0 0xFFFFFFF8 = .ok (u32, 0x10000000) := by decide +kernel
+example : (1 : Nat) ≤ u32.bits ∧ ((0:Int) - (-4)).toNat < (promote u32).digits ∧ u32.InRange 0xFFFFFFF8
+    ∧ roundShift (modeOf .tpi) 0xFFFFFFF8 ((0:Int) - (-4)).toNat = 0x10000000 ∧ u32.InRange 0x10000000 := by decide
+-- no bias is added, so the values at the limits that defeat `scaled_ties_up` / `scaled_nearest` are correct here
+example : RoundWrap.convert .tpi u32 (-16) u32 (-8) 4294967295 = .ok (u32, 16777216)
+    ∧ RoundWrap.convert .nrst i32 (-16) i32 (-8) 2147483647 = .ok (i32, 8388608)
+    ∧ RoundWrap.convert .nrst i32 (-16) i32 (-8) (-2147483648) = .ok (i32, -8388608)
+    ∧ RoundWrap.convert .tpi i8 (-7) i8 0 (-128) = .ok (i8, -1) := by decide +kernel
+-- every sign quadrant, ties included: ±40/16 = ±2.5
+example : RoundWrap.convert .nrst i16 (-4) i8 0 40 = .ok (i8, 3) ∧ RoundWrap.convert .nrst i16 (-4) i8 0 (-40) = .ok (i8, -3)
+    ∧ RoundWrap.convert .tpi i16 (-4) i8 0 40 = .ok (i8, 3) ∧ RoundWrap.convert .tpi i16 (-4) i8 0 (-40) = .ok (i8, -2)
+    ∧ RoundWrap.convert .ninf i16 (-4) i8 0 40 = .ok (i8, 2) ∧ RoundWrap.convert .ninf i16 (-4) i8 0 (-40) = .ok (i8, -3)
+    ∧ RoundWrap.convert .nat i16 (-4) i8 0 40 = .ok (i8, 2) ∧ RoundWrap.convert .nat i16 (-4) i8 0 (-40) = .ok (i8, -2) := by decide +kernel
+-- a rounded value outside the destination is reduced modulo 2^bits by the final `static_cast`
+example : RoundWrap.convert .nrst i32 (-4) i8 0 32767 = .ok (i8, 0) ∧ roundShift .nearestAway 32767 4 = 2048 := by decide +kernel
+
+/-- widening (`eD ≤ eS`): no digits are lost, so under every tag the representation becomes exactly
+`v · 2^(eS − eD)` whenever that value fits the promoted source type (where the product is computed);
+`hw` says that the instantiation compiles (`power_value<S, eS − eD, 2>`) -/
+theorem wrapped_widening_exact (mode : RdMode) (S D : IntTy) (hS : 1 ≤ S.bits) (eS eD : Int) (v : Int)
+    (h : eD ≤ eS) (hw : eS = eD ∨ (eS - eD).toNat < (promote S).digits) (hv : S.InRange v)
+    (hfitS : (promote S).InRange (v * 2^(eS - eD).toNat)) :
+    RoundWrap.convert mode S eS D eD v = .ok (Cnl.convert D (promote S, v * 2^(eS - eD).toNat)) := by
+  rw [RoundWrap.widening_eval mode S D hS eS eD v h hw hv]
+  simp only [hfitS, ite_true, Cnl.convert]
+
+/-- … the value itself when it also fits the destination -/
+theorem wrapped_widening_exact_representable (mode : RdMode) (S D : IntTy) (hS : 1 ≤ S.bits) (hD : 1 ≤ D.bits)
+    (eS eD : Int) (v : Int) (h : eD ≤ eS) (hw : eS = eD ∨ (eS - eD).toNat < (promote S).digits) (hv : S.InRange v)
+    (hfitS : (promote S).InRange (v * 2^(eS - eD).toNat)) (hfitD : D.InRange (v * 2^(eS - eD).toNat)) :
+    RoundWrap.convert mode S eS D eD v = .ok (D, v * 2^(eS - eD).toNat) := by
+  rw [wrapped_widening_exact mode S D hS eS eD v h hw hv hfitS]
+  simp only [Cnl.convert, IntTy.wrap_id hD hfitD]
+
+/-- the widening conversion is undefined exactly when the promoted source type is signed and the
+product overflows it (then it is a signed overflow) -/
+theorem wrapped_widening_ub_iff (mode : RdMode) (S D : IntTy) (hS : 1 ≤ S.bits) (eS eD : Int) (v : Int)
+    (h : eD ≤ eS) (hw : eS = eD ∨ (eS - eD).toNat < (promote S).digits) (hv : S.InRange v) :
+    (∃ u, RoundWrap.convert mode S eS D eD v = .ub u) ↔
+      ((promote S).signed = true ∧ ¬ (promote S).InRange (v * 2^(eS - eD).toNat)) := by
+  rw [RoundWrap.widening_eval mode S D hS eS eD v h hw hv]
+  by_cases hfit : (promote S).InRange (v * 2^(eS - eD).toNat)
+  · simp only [hfit, ite_true, not_true_eq_false, and_false, iff_false]
+    intro ⟨u, hu⟩; cases hu
+  · by_cases hs : (promote S).signed = true
+    · simp only [hfit, hs, ite_false, ite_true, not_false_eq_true, and_self, iff_true]
+      exact ⟨_, rfl⟩
+    · have hs' : (promote S).signed = false := by simpa using hs
+      simp only [hfit, hs', ite_false, Bool.false_eq_true, false_and, iff_false]
+      intro ⟨u, hu⟩; cases hu
+
+/-- an unsigned promoted source type multiplies modulo `2^bits` -/
+theorem wrapped_widening_unsigned_wraps (mode : RdMode) (S D : IntTy) (hS : 1 ≤ S.bits) (eS eD : Int) (v : Int)
+    (h : eD ≤ eS) (hw : eS = eD ∨ (eS - eD).toNat < (promote S).digits) (hv : S.InRange v)
+    (hs : (promote S).signed = false) :
+    RoundWrap.convert mode S eS D eD v
+      = .ok (Cnl.convert D (promote S, (promote S).wrap (v * 2^(eS - eD).toNat))) := by
+  rw [RoundWrap.widening_eval mode S D hS eS eD v h hw hv]
+  by_cases hfit : (promote S).InRange (v * 2^(eS - eD).toNat)
+  · simp only [hfit, ite_true, Cnl.convert, IntTy.wrap_id (ScaledP.promote_bits_pos S) hfit]
+  · simp only [hfit, hs, ite_false, Cnl.convert, Bool.false_eq_true]
+
+example : RoundWrap.convert .nrst i8 0 i32 (-4) (-7) = .ok (i32, -112) ∧ RoundWrap.convert .tpi i8 0 i32 (-4) (-7) = .ok (i32, -112)
+    ∧ RoundWrap.convert .ninf i8 2 i16 2 (-7) = .ok (i16, -7)
+    ∧ RoundWrap.convert .tpi u32 0 u32 (-4) 0x0FFFFFFF = .ok (u32, 0xFFFFFFF0) := by decide +kernel
+example : ((0:Int) - (-4)).toNat < (promote u32).digits ∧ u32.InRange 0x0FFFFFFF
+    ∧ (promote u32).InRange (0x0FFFFFFF * 2^((0:Int) - (-4)).toNat) := by decide
+-- the complement: signed overflow of the product; modular product in `unsigned`
+example : RoundWrap.convert .nrst i32 0 i32 (-4) 2147483647 = .ub .signedOverflow
+    ∧ ¬ (promote i32).InRange (2147483647 * 2^((0:Int) - (-4)).toNat)
+    ∧ RoundWrap.convert .nrst u32 0 u32 (-4) 0xFFFFFFFF = .ok (u32, 0xFFFFFFF0) := by decide +kernel
 
 end Cnl.C09
